@@ -672,3 +672,32 @@ Proof.
   pose proof (int_enc_N_length r k Hr). pose proof (int_enc_N_length s k Hs).
   rewrite app_length, !enc_tlv_length_short by lia. lia.
 Qed.
+
+(* ------------------------------------------------------------------ *)
+(* ASN1Decode as coded: any parser that is right on canonical inputs,   *)
+(* followed by the re-encode comparison, accepts exactly the encodings   *)
+
+Lemma asn1_decode_impl_spec (u : bytes -> option (Z * Z)) :
+  (forall r s, u (der_encode r s) = Some (r, s)) ->
+  forall b r s, asn1_decode_impl u b = Some (r, s) <-> b = der_encode r s.
+Proof.
+  intros Hu b r s. unfold asn1_decode_impl. split.
+  - destruct (u b) as [[r' s']|]; [|discriminate].
+    destruct (beq b (der_encode r' s')) eqn:E; [|discriminate].
+    apply beq_eq in E. intros H. injection H as <- <-. exact E.
+  - intros ->. rewrite Hu, beq_refl. reflexivity.
+Qed.
+
+Lemma asn1_decode_impl_is_der_decode (u : bytes -> option (Z * Z)) :
+  (forall r s, u (der_encode r s) = Some (r, s)) ->
+  forall b, wfb b -> N.of_nat (length b) < LIM -> asn1_decode_impl u b = der_decode b.
+Proof.
+  intros Hu b Hw Hl.
+  destruct (der_decode b) as [[r s]|] eqn:E.
+  - apply der_decode_sound in E; [|exact Hw]. destruct E as [-> _].
+    apply asn1_decode_impl_spec; auto.
+  - destruct (asn1_decode_impl u b) as [[r s]|] eqn:E2; [|reflexivity].
+    apply asn1_decode_impl_spec in E2; [|exact Hu]. subst b.
+    rewrite der_decode_encode in E; [discriminate|].
+    unfold der_fits. fold LIM. unfold der_encode in Hl. rewrite enc_tlv_length in Hl. lia.
+Qed.
